@@ -96,6 +96,30 @@ func c01Enumerate(tier string, seed int64, emit func(string, any)) {
 			emit("ladders", c01Case{Srcs: []string{s}, Cfg: c})
 		}
 	})
+	// (iv) every construct of the construct-covering pool inside every kind of sub-evaluation
+	for _, p := range c03Programs {
+		if strings.HasPrefix(p, "^st") || strings.HasPrefix(p, "//") {
+			continue
+		}
+		ctxs := [][]string{
+			{"func g(){ " + p + " }; g()", "g()", "g()"},
+			{"func g(q1){ " + p + " }; [g(1), g(2)]"},
+			{"&c = " + p + "; c", "c", "c + c"},
+			{"`{" + p + "}`"}, {"`{% " + p + " %}`"}, {"\x1e{" + p + "}\x1e"},
+			{"while 1 { " + p + "; break }"}, {"if 1 { " + p + " }"}, {"i = 0; while i < 3 { i = i + 1; " + p + " }"},
+			{"[" + p + "]"}, {"xf(" + p + ")"}, {"1 ? (" + p + ") : 2"},
+		}
+		for _, srcs := range ctxs {
+			for _, c := range []drv.Cfg{cfgs[0], cfgs[4], cfgs[5]} {
+				emit("contexts", c01Case{Pre: c03Prelude, Srcs: srcs, Cfg: c})
+			}
+		}
+		d := cfgs[0]
+		d.DefExpr = p
+		for _, src := range []string{"2d", "d", "func g(){ 2d }; g()", "&c = d; c + c"} {
+			emit("contexts", c01Case{Pre: c03Prelude, Srcs: []string{src, src}, Cfg: d})
+		}
+	}
 	// (v) histories: ordered pairs on one VM
 	gen.Histories(func(a, b string) {
 		emit("histories", c01Case{Srcs: []string{a, b}, Cfg: cfgs[0]})
